@@ -75,7 +75,7 @@ def main():
         rc, out = run(pr, tree, args.tier)
         kinds = sorted(set(l.split(":")[0].strip("# ").strip() for l in out.split("\n") if l.startswith("  # ")))
         caught.append((pr, rc, kinds))
-      ok = any(rc == 1 for _, rc, _ in caught)
+      ok = any(rc == 1 and kinds for _, rc, kinds in caught)
       print("MUTANT %-44s %s  %s" % (m["name"], "CAUGHT" if ok else "MISSED", caught))
       results.append(ok)
     finally:
